@@ -78,6 +78,8 @@ def _call(fn):
     """run fn; classify the outcome"""
     try:
         return 'ok', fn()
+    except Violation:
+        raise
     except InjectedFault as e:
         return 'fault', e
     except Exception as e:  # noqa
